@@ -50,9 +50,24 @@ def alias_probe(rnd, op=None):
             "large": rnd.random() < 0.3, "mode": rnd.randrange(3), "vr": rnd.random() < 0.3, "t": list(t), "b": list(b), "alias": True}
 
 
+def translucent_bg_probe(rnd, op=None):
+    """Opaque text on a translucent background (composited over white by definition): exposes a process-wide default
+    backdrop that some earlier operation changed."""
+    a = rnd.choice(["0.4", "0.5", "0.75"])
+    bgc = rnd.choice([(0, 0, 0), (20, 40, 200), (255, 0, 0)])
+    bg = "rgba(%d, %d, %d, %s)" % (bgc + (a,))
+    t = rnd.choice([(17, 17, 17), (119, 119, 119), (250, 250, 250)])
+    comp = [int(float(a) * c + (1 - float(a)) * 255 + 0.5) for c in bgc]
+    return {"op": op or rnd.choice(["fix", "label", "bulk"]), "text": list(t), "tk": "tuple", "bg": bg, "bk": "rgba",
+            "large": False, "mode": rnd.randrange(3), "vr": False, "t": list(t), "b": comp, "translucent_bg": True}
+
+
 def make_probe(rnd, op=None):
-    if rnd.random() < 0.12:
+    r0 = rnd.random()
+    if r0 < 0.12:
         return alias_probe(rnd, op)
+    if r0 < 0.2:
+        return translucent_bg_probe(rnd, op)
     for _ in range(50):
         large, vr = rnd.random() < 0.4, rnd.random() < 0.4
         r = rnd.random()
@@ -109,6 +124,10 @@ def history_ops(rnd, probe, n):
             ops.append(("bulk", rnd.randrange(0, 4), rnd.randrange(3), rnd.random() < 0.5))
         elif k == 6:  # in-process CLI run on a sheet containing the pair
             ops.append(("cli", rnd.randrange(3), rnd.random() < 0.5))
+            if rnd.random() < 0.6:
+                # ... and CLI runs that end early: empty directory, directory holding only outputs, a non-stylesheet path;
+                # with a non-default --default-bg
+                ops.append(("cli-early", rnd.choice(["empty", "outputs-only", "not-css"]), rnd.choice(["black", "#123456", "rgb(200, 0, 0)", "white"])))
         elif k == 7:
             ops.append(("show", rnd.random() < 0.5, rnd.random() < 0.5))
         elif k == 8:  # neighbours of the probe's colours (memo keyed on a rounded/partial key)
@@ -149,6 +168,19 @@ def run_op(lib, op, probe, scratch, rnd):
                         f".q {{ color: var(--c); background-color: {css(probe['b'])}; }}\n.r {{ color: #777; }}\n")
             args = ["h.css", "--mode", str(mode)] + (["--premium"] if premium else [])
             cli.run_inprocess(args, d)
+        elif op[0] == "cli-early":
+            _, layout, dbg = op
+            d = os.path.join(scratch, "cli-" + layout)
+            os.makedirs(d, exist_ok=True)
+            target = "."
+            if layout == "outputs-only":
+                with open(os.path.join(d, "old_cm.css"), "w") as f:
+                    f.write(".a { color: #777 }\n")
+            elif layout == "not-css":
+                with open(os.path.join(d, "readme.txt"), "w") as f:
+                    f.write("x")
+                target = "readme.txt"
+            cli.run_inprocess([target, "--default-bg", dbg], d)
         elif op[0] == "show":
             import contextlib
             import io
